@@ -52,6 +52,10 @@ def run(tier, seed, replay_rows=None):
         ck.observe(key, "%s in %d trace(s) of the real raterun.Runner; first (%s, schedules %s): %s" % (
             key, len(lst), t["name"], t["sched"], json.dumps([[e["k"], e["a"], e["c"]] for e in t["ev"][-14:]])), dict(rows=lst[:3]))
     steps_grain(ck, rows)
+    if replay_rows is None:
+        # the runner as f1's run uses it (progress lines): a run that ends while the periodic function is still writing to a
+        # slow sink has stopped - and so waited for - its runner before it returns (whole-run observer, clause C18)
+        runtraces.check(ck, "C18", only="progress", parts=2)
     return ck.finish()
 
 
